@@ -112,6 +112,9 @@ class StubClient:
 
     def send(self, data):
         self.sent.append(bytes(data))
+        if getattr(self, 'handle_local_echo', False):
+            # an RS-485 adaptor with local echo: what is written comes back first
+            self.reply = self.reply[:self.pos] + bytes(data) + self.reply[self.pos:]
         return len(data)
 
     def recv(self, size):
@@ -177,6 +180,35 @@ def client_history(rep, fname):
     if not ok or over:
         rep.violation('after a history of silent transactions the client did not read exactly the exception reply', case,
                       asked=asked, frame_len=len(frame), got=got, earlier=[t[2] for t in trace[:3]])
+
+
+def client_echo(rep, fname):
+    """serial clients with handle_local_echo: the echo of the request is read first, then the reply — an exception reply
+    must still be read with ITS length"""
+    fcls = FRAMERS[fname]
+    from pymodbus.register_read_message import ReadHoldingRegistersResponse
+    for label, reply_obj in (('normal', ReadHoldingRegistersResponse(list(range(10)))), ('exception', ExceptionResponse(3, 2))):
+        m = {'t': 'readHolding', 'address': 0, 'count': 10}
+        req = msggen.mk_req(m)
+        req.unit_id = 1
+        reply_obj.unit_id = 1
+        reply_obj.transaction_id = 1
+        frame = StubClient(fcls).framer.buildPacket(reply_obj)
+        c = StubClient(fcls, frame)
+        c.handle_local_echo = True
+        try:
+            got = c.transaction.execute(req)
+            gj = {'error_object': True} if isinstance(got, Exception) else pdus.resp_to_json(got)
+        except Exception as e:  # noqa
+            gj = {'raised': errkind(e)}
+        echo_len = len(c.sent[0]) if c.sent else 0
+        case = {'kind': 'client-echo', 'framer': fname, 'reply': label}
+        rep.case(('echo', fname, label), nontrivial=True, tag='client-echo:' + fname)
+        expect = pdus.resp_to_json(ClientDecoder().decode(bytes([reply_obj.function_code]) + reply_obj.encode()))
+        over = bool(c.asked) and all(a is not None for a in c.asked) and sum(c.asked) != echo_len + len(frame)
+        if gj != expect or over or c.pos != echo_len + len(frame):
+            rep.violation('with local echo the client did not read exactly the echo and the reply', case,
+                          asked=c.asked, echo_len=echo_len, frame_len=len(frame), got=gj, expected=expect)
 
 
 def run(ctx):
@@ -260,6 +292,8 @@ def run(ctx):
                           predicted=pred, real=real)
     for fname in framer_names:
         client_history(rep, fname)
+        if fname in ('rtu', 'ascii', 'binary'):
+            client_echo(rep, fname)
     # exception replies through every framing
     for fname in framer_names:
         for m in (reqs[0], reqs[4000], {'t': 'writeRegister', 'address': 1, 'value': 2}, dreqs[0]):
